@@ -84,7 +84,25 @@ def run_c14(F, R):
                     R.violation('S2b', name + ':none-while-children-report', 'last() can be None although every child has an output: case %s' % [tstr(c) for c in conds][:4], v.file)
                 continue
             if not reach_all:
-                continue  # a path on which some child has no output: the wrapper keeps its answer (C01 R3 / C08)
+                # a path on which some child has no output: the wrapper keeps its answer (C01 R3 / C08) -- but a stateless
+                # binary/unary combinator has no answer to keep: it must report nothing there, not the output of the child that is ready
+                if spec[0] in ('binop', 'unop') and leaf != ('in', None):
+                    import itertools
+                    leaf_some = leaf[0] == 'some' or leaf[0] in ('childlast',) or (leaf[0] == 'phi')
+                    if leaf_some and not any(f for f in free_ins(leaf)):
+                        for combo in itertools.product((True, False), repeat=len(lasts)):
+                            if all(combo):
+                                continue
+                            asg = {is_some(c): b_ for c, b_ in zip(lasts, combo)}
+                            if any(eval3(cc, asg) is False for cc in conds):
+                                continue
+                            pres = True if leaf[0] == 'some' else eval3(is_some(leaf), asg)
+                            if pres is not False:
+                                ok2b = False
+                                missing = [c[1] for c, b_ in zip(lasts, combo) if not b_]
+                                R.violation('S2b', name + ':some-without-' + ','.join(missing), 'last() can be Some (%s) while child `%s` has no output' % (tstr(leaf)[:50], ','.join(missing)), v.file)
+                                break
+                continue
             if leaf[0] != 'some':
                 ok2 = False
                 R.violation('S2', name + ':shape', 'last∘update is not Some(..)/None here: %s' % tstr(leaf)[:120], v.file)
